@@ -440,52 +440,70 @@ ChooseBackend ==
 ---------------------------------------------------------------------------
 (* Expected observation, verdict class, lemmas, record.                    *)
 
-SelSeq == SelectSeq([i \in 1..Len(env) |-> i], LAMBDA i : i \in Selected(env, query, tsel))
+\* (TLC re-evaluates a definition at every use: the selection is bound once by LET and handed on as an argument)
+SelSeq == LET S == Selected(env, query, tsel) IN SelectSeq([i \in 1..Len(env) |-> i], LAMBDA i : i \in S)
 
-Expect == [k \in 1..Len(SelSeq) |->
-             LET p == env[SelSeq[k]]  rel == RelName(query, p.path) IN
-             [param |-> SelSeq[k], feat |-> Features(p, rel, be, opt, query, tsel)] @@ Obs(p, rel, be, opt)]
+Expect == LET ss == SelSeq IN
+          [k \in 1..Len(ss) |->
+             LET p == env[ss[k]]  rel == RelName(query, p.path) IN
+             [param |-> ss[k], feat |-> Features(p, rel, be, opt, query, tsel)] @@ Obs(p, rel, be, opt)]
 
 \* parameters that must NOT be visible to the reader, under the name they would have had
 \* ("" for selected ones and for names that a selected parameter legitimately occupies)
 SelKeys == { SymKey(RelName(query, env[i].path), be, opt.rename) : i \in Selected(env, query, tsel) }
-Unselected == [k \in 1..Len(env) |->
-                 IF k \in Selected(env, query, tsel) \/ SymKey(env[k].path, be, opt.rename) \in SelKeys
+Unselected == LET S == Selected(env, query, tsel)  keys == SelKeys IN
+              [k \in 1..Len(env) |->
+                 IF k \in S \/ SymKey(env[k].path, be, opt.rename) \in keys
                  THEN "" ELSE Symbol(env[k].path, be, opt.rename)]
 
 \* inputs on which the documentation decides nothing: excluded from verdicts (counted as unspecified)
+\* the k-th selected parameter, its relative name, symbol and key (cheap projections of Expect[k])
+SelP(ss, k)   == env[ss[k]]
+SelRel(ss, k) == RelName(query, SelP(ss, k).path)
+SelSym(ss, k) == Symbol(SelRel(ss, k), be, opt.rename)
+SelKey(ss, k) == SymKey(SelRel(ss, k), be, opt.rename)
+
 Class ==
+  LET ss == SelSeq  n == Len(ss)  keys == [k \in 1..n |-> SelKey(ss, k)] IN
   IF ~TagsDecided(env, query, tsel) THEN "unspecified:tags_any_or_all"
-  ELSE IF \E k, l \in 1..Len(Expect) : k # l /\ Expect[k].key = Expect[l].key THEN "unspecified:name_collision"
-  ELSE IF \E k \in 1..Len(Expect) : ~IsIdentifier(RelName(query, env[SelSeq[k]].path), be, opt.rename) THEN "unspecified:not_an_identifier"
-  ELSE IF \E k \in 1..Len(Expect) : Expect[k].store = "macro" /\ Rank(Expect[k].shape) > 0 THEN "unspecified:define_of_array"
+  ELSE IF \E k, l \in 1..n : k # l /\ keys[k] = keys[l] THEN "unspecified:name_collision"
+  ELSE IF \E k \in 1..n : ~IsIdentifier(SelRel(ss, k), be, opt.rename) THEN "unspecified:not_an_identifier"
+  ELSE IF \E k \in 1..n : Store(be, Dotted(SelRel(ss, k)) \in opt.define) = "macro" /\ Rank(SelP(ss, k).shape) > 0 THEN "unspecified:define_of_array"
   ELSE "wellformed"
 
 \* -- contract sanity lemmas, checked by TLC on every scenario
 LemmaNames ==            \* the name mapping is injective on the selected parameters of a well-formed scenario
-  Class = "wellformed" => \A k, l \in 1..Len(Expect) : k # l => (Expect[k].sym # Expect[l].sym /\ Expect[k].key # Expect[l].key)
+  LET ss == SelSeq  E == Expect  n == Len(ss)
+      syms == [k \in 1..n |-> SelSym(ss, k)]  keys == [k \in 1..n |-> SelKey(ss, k)] IN
+  /\ \A k \in 1..n : LET e == E[k] IN e.sym = syms[k] /\ e.key = keys[k] /\ e.param = ss[k]
+  /\ Class = "wellformed" => \A k, l \in 1..n : k # l => (syms[k] # syms[l] /\ keys[k] # keys[l])
 LemmaShapes ==           \* the expected elements enumerate the index set of the shape exactly once, in row-major order
-  \A k \in 1..Len(Expect) :
-    LET e == Expect[k]  p == env[e.param] IN
+  LET E == Expect IN
+  \A k \in 1..Len(E) :
+    LET e == E[k]  p == env[e.param] IN
     /\ Len(e.elems) = Count(p.shape) /\ Len(p.elems) = Count(p.shape)
     /\ {e.elems[n].idx : n \in 1..Len(e.elems)} = IndexSet(p.shape)
     /\ \A n \in 1..Len(e.elems) : RowPos(p.shape, e.elems[n].idx) = n
     /\ \A n \in 1..Len(e.elems) : Fits(TvOf(p), p.elems[n])
     /\ {ColPos(p.shape, idx) : idx \in IndexSet(p.shape)} = 1..Count(p.shape)
 LemmaSelection ==        \* selection is a filter: order preserving, sound and complete; relative names are suffixes
-  /\ \A k \in 1..Len(SelSeq) : k > 1 => SelSeq[k - 1] < SelSeq[k]
+  LET ss == SelSeq  S == Selected(env, query, tsel)  U == Unselected IN
+  /\ \A k \in 1..Len(ss) : k > 1 => ss[k - 1] < ss[k]
+  /\ {ss[k] : k \in 1..Len(ss)} = S
   /\ \A i \in 1..Len(env) :
-       (i \in Selected(env, query, tsel)) <=> (QMatch(query, env[i].path) /\ TMatchAny(tsel, env[i]))
-  /\ \A i \in Selected(env, query, tsel) :
+       (i \in S) <=> (QMatch(query, env[i].path) /\ TMatchAny(tsel, env[i]))
+  /\ \A i \in S :
        LET rel == RelName(query, env[i].path) IN
        /\ Len(rel) >= 1
        /\ SubSeq(env[i].path, Len(env[i].path) - Len(rel) + 1, Len(env[i].path)) = rel
-  /\ (query = <<>> /\ tsel = {}) => Len(SelSeq) = Len(env)
-  /\ \A i \in 1..Len(env) : (i \in Selected(env, query, tsel)) => Unselected[i] = ""
-  /\ \A i \in 1..Len(env) : \A k \in 1..Len(Expect) : Unselected[i] # "" => Unselected[i] # Expect[k].sym
+  /\ (query = <<>> /\ tsel = {}) => Len(ss) = Len(env)
+  /\ Len(Expect) = Len(ss)
+  /\ \A i \in 1..Len(env) : (i \in S) => U[i] = ""
+  /\ \A i \in 1..Len(env) : LET u == U[i] IN \A k \in 1..Len(ss) : u # "" => u # SelSym(ss, k)
 LemmaDefinition ==       \* what must be read back does not depend on how the DIP text gave the node its value
-  \A k \in 1..Len(SelSeq) :
-    LET p == env[SelSeq[k]]  rel == RelName(query, p.path) IN Obs(p, rel, be, opt) = Obs(Once(p), rel, be, opt)
+  LET ss == SelSeq IN
+  \A k \in 1..Len(ss) :
+    LET p == env[ss[k]]  rel == RelName(query, p.path) IN Obs(p, rel, be, opt) = Obs(Once(p), rel, be, opt)
 LemmaEnv ==              \* paths of an environment are pairwise different
   \A i, j \in 1..Len(env) : i # j => env[i].path # env[j].path
 \* the type class distinguishes the DIP types as far as the back-end is documented to
@@ -645,8 +663,8 @@ Lemmas ==
        /\ LemmaEnv /\ LemmaNames /\ LemmaShapes /\ LemmaSelection /\ LemmaDefinition
        /\ PrintT(ToJson(Record))
   /\ (stage = "hist" /\ Len(calls) > 0 /\ calls[Len(calls)].op = "parse") =>
-       /\ LemmaEnv /\ LemmaNames /\ LemmaShapes /\ LemmaSelection /\ LemmaHistory
-       /\ Complete => PrintT(ToJson(HistoryRecord))
+       /\ LemmaEnv /\ LemmaNames /\ LemmaShapes /\ LemmaSelection
+       /\ Complete => (LemmaHistory /\ PrintT(ToJson(HistoryRecord)))     \* every pair of parses of the history
   /\ (stage = "chain" /\ Len(calls) > 0) =>
        /\ LemmaEnv /\ LemmaNames /\ LemmaShapes /\ LemmaSelection /\ LemmaChain
        /\ (Len(calls) = MaxChain) => PrintT(ToJson(ChainRecord))
